@@ -779,6 +779,8 @@ fn gen_request(r: &mut Rng, id: u64) -> ReqSpec {
     if matches!(route, Some(rt) if matches!(rt.hk, HK::Registry | HK::Struct)) && gate_outcome(&body).is_some() {
         body[0] = b'%';
     }
+    // any body under a body-format code the kind may not accept
+    let bfmt = if r.chance(1, 12) { *r.pick(&[0u16, 4, 5, 255, 256, 999, 4095, 4096, 65535]) } else { bfmt };
     let mut f = RawFrame::request(id, false, qfmt, &query, bfmt, &body);
     f.h.version = version;
     f.h.notify = notify;
